@@ -19,13 +19,17 @@ pub enum Fmt { NTriples, NQuads, Turtle, N3, RdfXml }
 #[derive(Serialize, Deserialize, Clone, Debug)]
 pub struct Doc { pub triples: Vec<(LT, u32, LT)>, pub seed: u64 }
 #[derive(Serialize, Deserialize, Clone, Debug)]
-pub struct LoadCase { pub hash_seed: u64, pub pool: usize, pub rayon_seed: u64, pub cpus: i64, pub shuttle_seed: u64, pub prior: Vec<(LT, u32, LT, Option<u32>)>, pub prior_terms: u32, pub doc: Doc, pub formats: Vec<Fmt>, pub twice: bool, pub comments: bool, #[serde(default)] pub n3_literals: bool, #[serde(default)] pub nq_graphs: bool, #[serde(default)] pub lists: bool }
+pub struct LoadCase { pub hash_seed: u64, pub pool: usize, pub rayon_seed: u64, pub cpus: i64, pub shuttle_seed: u64, pub prior: Vec<(LT, u32, LT, Option<u32>)>, pub prior_terms: u32, pub doc: Doc, pub formats: Vec<Fmt>, pub twice: bool, pub comments: bool, #[serde(default)] pub n3_literals: bool, #[serde(default)] pub nq_graphs: bool, #[serde(default)] pub lists: bool, #[serde(default)] pub prior_prefix_clash: bool }
 pub struct C13;
 
 /// escaped-literal families: backslash and quote in the middle, value ending in a backslash, value ending in a quote
-fn canon(t: &LT) -> String { match t { LT::Quoted(a, b, c) => format!("<< http://e/n{} http://e/p{} http://e/n{} >>", a, b, c), LT::Iri2(n) => format!("http://f/n{}", n), LT::Iri(n) => format!("http://e/n{}", n), LT::Lit(n) => format!("v{}", n), LT::EscLit(n) => match n % 3 { 0 => format!("a\"b\\c{}", n), 1 => format!("dir{}\\", n), _ => format!("say{}\"", n) }, LT::Bn(n) => format!("_:b{}", n) } }
-fn nt(t: &LT) -> String { match t { LT::Quoted(a, b, c) => format!("<< <http://e/n{}> <http://e/p{}> <http://e/n{}> >>", a, b, c), LT::Iri2(n) => format!("<http://f/n{}>", n), LT::Iri(n) => format!("<http://e/n{}>", n), LT::Lit(n) => format!("\"v{}\"", n), LT::EscLit(n) => match n % 3 { 0 => format!("\"a\\\"b\\\\c{}\"", n), 1 => format!("\"dir{}\\\\\"", n), _ => format!("\"say{}\\\"\"", n) }, LT::Bn(n) => format!("_:b{}", n) } }
-fn pred(p: u32) -> String { format!("http://e/p{}", p) }
+fn canon(t: &LT) -> String { match t { LT::Quoted(a, b, c) => format!("<< http://e/n{} http://e/p{} http://e/n{} >>", a, b, c), LT::Iri2(n) => format!("http://f/n{}", n), LT::Iri(n) => format!("http://e/n{}", n), LT::Lit(n) => if n % 7 == 3 { format!("v#{}", n) } else { format!("v{}", n) }, LT::EscLit(n) => match n % 3 { 0 => format!("a\"b\\c{}", n), 1 => format!("dir{}\\", n), _ => format!("say{}\"", n) }, LT::Bn(n) => format!("_:b{}", n) } }
+fn nt(t: &LT) -> String { match t { LT::Quoted(a, b, c) => format!("<< <http://e/n{}> <http://e/p{}> <http://e/n{}> >>", a, b, c), LT::Iri2(n) => format!("<http://f/n{}>", n), LT::Iri(n) => format!("<http://e/n{}>", n), LT::Lit(n) => if n % 7 == 3 { format!("\"v#{}\"", n) } else { format!("\"v{}\"", n) }, LT::EscLit(n) => match n % 3 { 0 => format!("\"a\\\"b\\\\c{}\"", n), 1 => format!("\"dir{}\\\\\"", n), _ => format!("\"say{}\\\"\"", n) }, LT::Bn(n) => format!("_:b{}", n) } }
+/// predicates 100.. are RDF / RDFS schema properties (the RDF/XML loader has hard-coded branches for some of their element names)
+fn pred(p: u32) -> String { match p { 100 => "http://www.w3.org/2000/01/rdf-schema#label".into(), 101 => "http://www.w3.org/2000/01/rdf-schema#subClassOf".into(), 102 => "http://www.w3.org/1999/02/22-rdf-syntax-ns#type".into(), 103 => "http://www.w3.org/2000/01/rdf-schema#comment".into(), _ => format!("http://e/p{}", p) } }
+/// prefixed name of a predicate (Turtle / N3 / RDF-XML element name)
+fn pname(p: u32) -> String { match p { 100 => "rdfs:label".into(), 101 => "rdfs:subClassOf".into(), 102 => "rdf:type".into(), 103 => "rdfs:comment".into(), _ => format!("e:p{}", p) } }
+const SCHEMA_PREFIXES: &str = "@prefix rdf: <http://www.w3.org/1999/02/22-rdf-syntax-ns#> .\n@prefix rdfs: <http://www.w3.org/2000/01/rdf-schema#> .\n";
 
 /// N-Quads only: statement i of the document may carry a graph name (a pure function of the render seed and i)
 pub fn nq_graph(doc: &Doc, i: usize, enabled: bool) -> Option<u32> { if !enabled { return None; } let h = kolibrie_verif_rt::rng::mix(doc.seed, i as u64); if h % 4 == 0 { Some((h >> 8) as u32 % 3) } else { None } }
@@ -39,7 +43,7 @@ pub fn render(doc: &Doc, fmt: &Fmt, comments: bool, nq_graphs: bool, lists: bool
         Fmt::NQuads => { for (i, (s, p, o)) in doc.triples.iter().enumerate() { filler(&mut r, &mut out); match nq_graph(doc, i, nq_graphs) { Some(g) => out.push_str(&format!("{} <{}> {} <http://e/g{}> .\n", nt(s), pred(*p), nt(o), g)), None => out.push_str(&format!("{} <{}> {} .\n", nt(s), pred(*p), nt(o))) } } }
         Fmt::Turtle if lists => {
             // predicate-object lists and object lists, one statement per line: `s p o1 , o2 ; p2 o3 .`
-            out.push_str("@prefix e: <http://e/> .\n");
+            out.push_str("@prefix e: <http://e/> .\n"); out.push_str(SCHEMA_PREFIXES);
             let mut i = 0;
             while i < doc.triples.len() {
                 filler(&mut r, &mut out);
@@ -49,7 +53,7 @@ pub fn render(doc: &Doc, fmt: &Fmt, comments: bool, nq_graphs: bool, lists: bool
                 let mut line = st; let mut last_p: Option<u32> = None;
                 for (_, p, o) in &doc.triples[i..j] {
                     let ot = match o { LT::Iri(n) if r.chance(1, 2) => format!("e:n{}", n), x => nt(x) };
-                    if last_p == Some(*p) { line.push_str(&format!(" , {}", ot)); } else { if last_p.is_some() { line.push_str(" ;"); } line.push_str(&format!(" e:p{} {}", p, ot)); last_p = Some(*p); }
+                    if last_p == Some(*p) { line.push_str(&format!(" , {}", ot)); } else { if last_p.is_some() { line.push_str(" ;"); } line.push_str(&format!(" {} {}", pname(*p), ot)); last_p = Some(*p); }
                 }
                 line.push_str(" .\n"); out.push_str(&line);
                 i = j;
@@ -59,7 +63,7 @@ pub fn render(doc: &Doc, fmt: &Fmt, comments: bool, nq_graphs: bool, lists: bool
             // a second prefix z: is bound to http://e/ at the top and, when the document uses the second namespace, re-bound to
             // http://f/ half way: the same token `z:n5` then names a different IRI before and after the re-declaration
             let rebind = doc.triples.iter().any(|(s, _, o)| matches!(s, LT::Iri2(_)) || matches!(o, LT::Iri2(_)));
-            out.push_str("@prefix e: <http://e/> .\n@prefix z: <http://e/> .\n");
+            out.push_str("@prefix e: <http://e/> .\n@prefix z: <http://e/> .\n"); out.push_str(SCHEMA_PREFIXES);
             let half = doc.triples.len() / 2;
             for (i, (s, p, o)) in doc.triples.iter().enumerate() {
                 if rebind && i == half { out.push_str("@prefix z: <http://f/> .\n"); }
@@ -67,30 +71,32 @@ pub fn render(doc: &Doc, fmt: &Fmt, comments: bool, nq_graphs: bool, lists: bool
                 let after = rebind && i >= half;
                 let mut term = |t: &LT, r: &mut Rng| -> String { match t { LT::Iri(n) if !after && r.chance(1, 3) => format!("z:n{}", n), LT::Iri(n) if r.chance(1, 2) => format!("e:n{}", n), LT::Iri2(n) if after && r.chance(2, 3) => format!("z:n{}", n), x => nt(x) } };
                 let st = term(s, &mut r);
-                let pt = if r.chance(1, 2) { format!("e:p{}", p) } else { format!("<{}>", pred(*p)) };
+                let pt = if r.chance(1, 2) { pname(*p) } else { format!("<{}>", pred(*p)) };
                 let ot = term(o, &mut r);
                 out.push_str(&format!("{} {} {} .\n", st, pt, ot));
             }
         }
         Fmt::N3 => {
-            out.push_str("@prefix e: <http://e/> .\n");
+            out.push_str("@prefix e: <http://e/> .\n"); out.push_str(SCHEMA_PREFIXES);
             for (s, p, o) in &doc.triples {
                 filler(&mut r, &mut out);
                 let st = match s { LT::Iri(n) if r.chance(1, 2) => format!("e:n{}", n), x => nt(x) };
-                let pt = if r.chance(1, 2) { format!("e:p{}", p) } else { format!("<{}>", pred(*p)) };
+                let pt = if r.chance(1, 2) { pname(*p) } else { format!("<{}>", pred(*p)) };
                 let ot = match o { LT::Iri(n) if r.chance(1, 2) => format!("e:n{}", n), x => nt(x) };
-                out.push_str(&format!("{} {} {} .\n", st, pt, ot));
+                // the N3 loader strips `#` comments from statement lines too
+                let tail = if comments && r.chance(1, 9) { " # note <http://e/x#y> \"q\" ." } else { "" };
+                out.push_str(&format!("{} {} {} .{}\n", st, pt, ot, tail));
             }
         }
         Fmt::RdfXml => {
-            out.push_str("<?xml version=\"1.0\"?>\n<rdf:RDF xmlns:rdf=\"http://www.w3.org/1999/02/22-rdf-syntax-ns#\" xmlns:e=\"http://e/\">\n");
+            out.push_str("<?xml version=\"1.0\"?>\n<rdf:RDF xmlns:rdf=\"http://www.w3.org/1999/02/22-rdf-syntax-ns#\" xmlns:rdfs=\"http://www.w3.org/2000/01/rdf-schema#\" xmlns:e=\"http://e/\">\n");
             // with `lists`, consecutive triples of one subject share one rdf:Description element
             let mut i = 0;
             while i < doc.triples.len() {
                 let s0 = &doc.triples[i].0;
                 let mut j = i + 1; if lists { while j < doc.triples.len() && j < i + 4 && &doc.triples[j].0 == s0 { j += 1; } }
                 out.push_str(&format!("  <rdf:Description rdf:about=\"{}\">\n", canon(s0)));
-                for (_, p, o) in &doc.triples[i..j] { match o { LT::Iri(n) => out.push_str(&format!("    <e:p{} rdf:resource=\"http://e/n{}\"/>\n", p, n)), LT::Iri2(n) => out.push_str(&format!("    <e:p{} rdf:resource=\"http://f/n{}\"/>\n", p, n)), x => out.push_str(&format!("    <e:p{}>{}</e:p{}>\n", p, canon(x).replace('&', "&amp;").replace('<', "&lt;"), p)) } }
+                for (_, p, o) in &doc.triples[i..j] { match o { LT::Iri(n) => out.push_str(&format!("    <{} rdf:resource=\"http://e/n{}\"/>\n", pname(*p), n)), LT::Iri2(n) => out.push_str(&format!("    <{} rdf:resource=\"http://f/n{}\"/>\n", pname(*p), n)), x => out.push_str(&format!("    <{}>{}</{}>\n", pname(*p), canon(x).replace('&', "&amp;").replace('<', "&lt;"), pname(*p))) } }
                 out.push_str("  </rdf:Description>\n");
                 i = j;
             }
@@ -138,7 +144,7 @@ pub fn load(db: &mut SparqlDatabase, fmt: &Fmt, text: &str, shuttle_seed: u64, c
 impl Prop for C13 {
     type Case = LoadCase;
     fn id(&self) -> &'static str { "C13" }
-    fn expected_counters(&self) -> Vec<&'static str> { vec!["fault.shuttle_scheduled_xml_workers", "probe.document_loaded_twice", "probe.document_spans_several_loader_chunks", "probe.load_into_populated_store", "fault.pool_split_into_several_jobs", "fault.jobs_run_out_of_index_order"] }
+    fn expected_counters(&self) -> Vec<&'static str> { vec!["fault.shuttle_scheduled_xml_workers", "probe.document_loaded_twice", "probe.document_spans_several_loader_chunks", "probe.load_into_populated_store", "probe.database_binds_the_documents_prefixes_differently", "probe.schema_property_elements", "fault.pool_split_into_several_jobs", "fault.jobs_run_out_of_index_order"] }
     fn budget(&self, tier: Tier) -> Budget { match tier { Tier::Quick => Budget { runs: 4000, wall_s: 60, recheck: 20 }, Tier::Thorough => Budget { runs: 300_000, wall_s: 1000, recheck: 60 } } }
     fn hash_seed(&self, c: &LoadCase) -> u64 { c.hash_seed }
     fn gen(&self, seed: u64, _i: u64, _t: Tier) -> LoadCase {
@@ -149,14 +155,15 @@ impl Prop for C13 {
         let vocab = if big { (n as u64) * 2 } else { 12 };
         let second_ns = cfg.chance(1, 5); let star = cfg.chance(1, 6);
         let term = |r: &mut Rng, obj: bool| -> LT { if second_ns && r.chance(1, 4) { return LT::Iri2(r.below(vocab.min(12)) as u32); } if star && r.chance(1, 5) { return LT::Quoted(r.below(6) as u32, r.below(3) as u32, r.below(6) as u32); } match r.below(10) { 0 | 1 if obj => LT::Lit(r.below(vocab) as u32), 2 if obj => LT::EscLit(r.below(5) as u32), 3 => LT::Bn(r.below(6) as u32), _ => LT::Iri(r.below(vocab) as u32) } };
-        let triples: Vec<(LT, u32, LT)> = (0..n).map(|_| (term(&mut r, false), r.below(4) as u32, term(&mut r, true))).collect();
+        let schema_preds = cfg.chance(1, 4);
+        let triples: Vec<(LT, u32, LT)> = (0..n).map(|_| (term(&mut r, false), if schema_preds && r.chance(1, 3) { 100 + r.below(4) as u32 } else { r.below(4) as u32 }, term(&mut r, true))).collect();
         let mut triples = triples; if cfg.chance(1, 3) { triples.sort_by(|a, b| a.0.cmp(&b.0)); }
         let prior_kind = cfg.below(3);
         let prior: Vec<(LT, u32, LT, Option<u32>)> = if prior_kind == 0 { vec![] } else { (0..(1 + r.usize(12))).map(|_| (LT::Iri(r.below(vocab + 5) as u32), r.below(5) as u32, term(&mut r, true), if r.chance(1, 3) { Some(r.below(3) as u32) } else { None })).collect() };
         let all = [Fmt::NTriples, Fmt::NQuads, Fmt::Turtle, Fmt::N3, Fmt::RdfXml];
         let formats: Vec<Fmt> = if n >= 8000 { vec![Fmt::RdfXml, r.pick(&all).clone()] } else if big { vec![r.pick(&all).clone(), r.pick(&all).clone()] } else { all.to_vec() };
         LoadCase { hash_seed: Rng::sub(seed, "hash").next(), pool: *cfg.pick(&[1, 2, 3, 4, 8, 16]), rayon_seed: Rng::sub(seed, "rayon").next(), cpus: 1 + cfg.below(16) as i64, shuttle_seed: Rng::sub(seed, "shuttle").next(),
-            prior, prior_terms: if prior_kind == 2 { r.below(40) as u32 } else { 0 }, doc: Doc { triples, seed: r.next() }, formats, twice: cfg.chance(1, 4), comments: cfg.chance(1, 2), n3_literals: cfg.chance(1, 10), nq_graphs: cfg.chance(1, 2), lists: cfg.chance(1, 3) }
+            prior, prior_terms: if prior_kind == 2 { r.below(40) as u32 } else { 0 }, doc: Doc { triples, seed: r.next() }, formats, twice: cfg.chance(1, 4), comments: cfg.chance(1, 2), n3_literals: cfg.chance(1, 10), nq_graphs: cfg.chance(1, 2), lists: cfg.chance(1, 3), prior_prefix_clash: cfg.chance(1, 3) }
     }
     fn exec(&self, c: &LoadCase, ctx: &mut Ctx) -> Option<Violation> {
         rayon::sim_configure(c.rayon_seed, c.pool);
@@ -170,6 +177,8 @@ impl Prop for C13 {
             // prior content: terms in the dictionary, quads in default and named graphs, a prefix
             for i in 0..c.prior_terms { db.encode_term_star(&format!("<http://e/pad{}>", i)); }
             db.prefixes.insert("old".into(), "http://old/".into());
+            // the database may already bind the very prefixes the document declares, to other namespaces
+            if c.prior_prefix_clash { for k in ["e", "z", "rdfs"] { db.prefixes.insert(k.into(), format!("http://old/{}/", k)); } ctx.hit("probe.database_binds_the_documents_prefixes_differently"); }
             for (s, p, o, g) in &c.prior { match g { None => { db.add_triple_parts(&canon(s), &pred(*p), &canon(o)); } Some(gn) => { db.add_quad_parts(&nt(s), &format!("<{}>", pred(*p)), &nt(o), &format!("http://e/g{}", gn)); } } }
             let (before, graphs_before) = match lexical(&db) { Ok(x) => x, Err(e) => return fin(Some(Violation::new("dataset-undecodable", e))) };
             // N3 keeps the quotes of literals (a listed finding, see known_findings.json): outside the 1-in-10 runs that
@@ -193,6 +202,7 @@ impl Prop for C13 {
             let want: BTreeSet<Q> = before.union(&want_doc).cloned().collect();
             ev!(ctx.log, "{:?} lines={} prior={} after={} want={}", fmt, lines, before.len(), after.len(), want.len());
             if lines > 1000 { ctx.hit("probe.document_spans_several_loader_chunks"); }
+            if doc.triples.iter().any(|(_, p, _)| *p >= 100) { ctx.hit("probe.schema_property_elements"); }
             if !before.is_empty() { ctx.hit("probe.load_into_populated_store"); }
             if after != want {
                 let missing: Vec<&Q> = want.difference(&after).take(2).collect(); let extra: Vec<&Q> = after.difference(&want).take(2).collect();
@@ -222,6 +232,8 @@ impl Prop for C13 {
         if c.n3_literals { out.push(LoadCase { n3_literals: false, ..c.clone() }); }
         if c.nq_graphs { out.push(LoadCase { nq_graphs: false, ..c.clone() }); }
         if c.lists { out.push(LoadCase { lists: false, ..c.clone() }); }
+        if c.prior_prefix_clash { out.push(LoadCase { prior_prefix_clash: false, ..c.clone() }); }
+        if c.doc.triples.iter().any(|(_, p, _)| *p >= 100) { let t = c.doc.triples.iter().map(|(s, p, o)| (s.clone(), if *p >= 100 { *p - 100 } else { *p }, o.clone())).collect(); out.push(LoadCase { doc: Doc { triples: t, seed: c.doc.seed }, ..c.clone() }); }
         if c.pool != 1 { out.push(LoadCase { pool: 1, rayon_seed: 0, ..c.clone() }); }
         if c.cpus != 1 { out.push(LoadCase { cpus: 1, ..c.clone() }); }
         // simplify terms
